@@ -65,3 +65,13 @@ Definition oc_beq := opt_beq (list_beq comp_beq).
 Definition c17_agree (c : c17case) : bool := list_beq oc_beq (map (fun t => canon (parse_text t)) (s_texts c)) (s_real c).
 (** the property: every layout gives exactly the tree that was written *)
 Definition c17_spec (c : c17case) : bool := forallb (fun r => oc_beq r (canon (Some (s_ast c)))) (s_real c).
+
+(** the character classes of the grammar's name terminals, read from the grammar text of the tree under test and
+    evaluated by Python's re on [k_codes], against the model's predicates *)
+Record c17cls := mkCls { k_codes : list Z; k_hdr : list bool; k_hq : list bool; k_var : list bool; k_ref : list bool;
+                         k_f1 : list bool; k_fr : list bool; k_ws : list bool }.
+Definition c17_classes_agree (k : c17cls) : bool :=
+  let eqb := list_beq Bool.eqb in
+  eqb (map idc (k_codes k)) (k_hdr k) && eqb (map hqc (k_codes k)) (k_hq k) && eqb (map idc (k_codes k)) (k_var k) &&
+  eqb (map idc (k_codes k)) (k_ref k) && eqb (map is_letter (k_codes k)) (k_f1 k) && eqb (map idc (k_codes k)) (k_fr k) &&
+  eqb (map wsc (k_codes k)) (k_ws k).
